@@ -237,7 +237,7 @@ PROPS["C09"] = {
 PROPS["C10"] = {
     "level": "other",
     "technique": "deductive verification of the name counters, of ScaffoldNamer.rename_by_size (names redistributed by non-increasing length) and of the output sort key (rank, natural key) + bounded naming/ordering/CSV oracle over tagged maps",
-    "level_text": "Proved: haplotig and unloc names are taken from strictly increasing counters (each number used once), the output order key is (rank, natural name key) with rank first (C20 contracts), label_scaffold assigns rank 3 to special pieces; rename_by_size hands the k-th name (in order of appearance) to the k-th longest scaffold of the list - lengths as Scaffold.length / OverlapResult.length report them at that moment, dispatched on the object's class - and changes nothing but names. Bounded: when rename_by_size is called relative to cuts (known finding), uniqueness of names per assembly, chromosome numbering by size without holes, unloc/haplotig ranking, CSV. Known findings: C10-unloc-rank-precut-length, C10-unloc-number-hole, C10-unloc-only-chromosome-csv.",
+    "level_text": "Proved: haplotig and unloc names are taken from strictly increasing counters (each number used once), the output order key is (rank, natural name key) with rank first (C20 contracts), label_scaffold assigns rank 3 to special pieces; rename_by_size hands the k-th name (in order of appearance) to the k-th longest scaffold of the list - lengths as Scaffold.length / OverlapResult.length report them at that moment, dispatched on the object's class - and changes nothing but names; the configured chromosome prefix is handed by the autosome_prefix setter to both of its users (the namer that builds <prefix>n and the statistics object that writes the CSV) and to nothing else, and the getter returns the namer's copy. Bounded: when rename_by_size is called relative to cuts (known finding), uniqueness of names per assembly, chromosome numbering by size without holes, unloc/haplotig ranking, CSV. Known findings: C10-unloc-rank-precut-length, C10-unloc-number-hole, C10-unloc-only-chromosome-csv.",
     "level_note": PIPE_NOTE,
     "lemmas": [],
     "bounded": [("bounded.c10", {})],
